@@ -173,6 +173,42 @@ def _task(args):
     return stats, vios, sample, len(outcomes)
 
 
+def _task_history(args):
+    """history independence: the definitions that share a PGN decoded one after the other on ONE decoder
+    (forward, backward, and again), and every base payload decoded twice: each result is still checked
+    against the reference, so a cache keyed too coarsely (per PGN, per table shape, per payload) shows."""
+    pgns, seed = args
+    db = refdb.db()
+    vios = []
+    stats = {"cases": 0, "decoded": 0, "failed_ok": 0, "nontrivial": 0, "defs": 0, "unsupported_defs": 0}
+    dec = NMEA2000Decoder()
+    for pgn in pgns:
+        ds = db.by_pgn[pgn]
+        seq = []
+        for d in ds:
+            for b in ("mid", "max", "zero"):
+                p, n = payloads.build(d, payloads.base_assignment(d, b))
+                seq.append((d, b, p, n))
+        for order, items in (("forward", seq), ("backward", seq[::-1]), ("again", seq)):
+            for d, b, p, n in items:
+                stats["cases"] += 1
+                stats["nontrivial"] += 1
+                msg, err = run_lib(dec, pgn, p, n)
+                if msg is not None:
+                    stats["decoded"] += 1
+                for kind, facts, detail in compare(db, pgn, p, n, msg, err):
+                    if len(vios) < 60:
+                        vios.append({"kind": kind, "facts": dict(facts, mechanism="depends_on_history"),
+                                     "signature": f"hist:{kind}:{pgn}:{facts.get('definition', d.id)}:{facts.get('field')}",
+                                     "detail": f"[PGN {pgn} {d.id} base={b}, decoded in a {order} pass over all definitions of the PGN on one decoder, payload={p.to_bytes(n, 'little').hex()[:60]}] {detail}",
+                                     "case": {"pgn": pgn, "definition": d.id, "payload_hex": p.to_bytes(n, "little").hex(), "entry": "plain", "history_pass": order}})
+    return stats, vios, None, 0
+
+
+def _dispatch(t):
+    return _task(t[1]) if t[0] == "enum" else _task_history(t[1])
+
+
 def run(ctx):
     db = refdb.db()
     k = 2 if ctx.thorough else 1
@@ -184,7 +220,13 @@ def run(ctx):
     buckets = [[] for _ in range(nb)]
     for j, i in enumerate(order):
         buckets[j % nb].append(i)
-    results = common.pmap(_task, [(b, k, narrow, ctx.seed) for b in buckets if b])
+    tasks = [("enum", (b, k, narrow, ctx.seed)) for b in buckets if b]
+    # history passes: all PGNs, grouped so that bit-lookup / lookup tables of different PGNs meet in one process
+    allp = sorted(db.by_pgn)
+    for i in range(0, 4):
+        tasks.append(("hist", (allp[i::4], ctx.seed)))
+    tasks.append(("hist", (allp[::-1], ctx.seed)))
+    results = common.pmap(_dispatch, tasks)
     vios, samples = [], []
     tot = {"cases": 0, "decoded": 0, "nontrivial": 0, "defs": 0, "unsupported_defs": 0}
     outcomes = 0
